@@ -420,18 +420,20 @@ func (d *Document) AddImageFromFile(filePath string, config *ImageConfig) (*Imag
 // generateSafeImageFileName 生成安全的图片文件名
 // 将非ASCII字符的文件名转换为安全的ASCII文件名，以确保Microsoft Word兼容性
 func generateSafeImageFileName(imageID int, originalFileName string, format ImageFormat) string {
-	// 获取文件扩展名
-	ext := filepath.Ext(originalFileName)
-	if ext == "" {
-		// 如果没有扩展名，根据格式添加
-		switch format {
-		case ImageFormatPNG:
-			ext = ".png"
-		case ImageFormatJPEG:
-			ext = ".jpeg"
-		case ImageFormatGIF:
-			ext = ".gif"
-		default:
+	// 扩展名必须与 addImageContentType 为该格式注册的默认内容类型一致，
+	// 否则（例如调用方给出 .jpg、.PNG 或与数据不符的扩展名）媒体部件在
+	// [Content_Types].xml 中没有内容类型。只有未知格式才沿用原始扩展名。
+	var ext string
+	switch format {
+	case ImageFormatPNG:
+		ext = ".png"
+	case ImageFormatJPEG:
+		ext = ".jpeg"
+	case ImageFormatGIF:
+		ext = ".gif"
+	default:
+		ext = filepath.Ext(originalFileName)
+		if ext == "" {
 			ext = ".png"
 		}
 	}
